@@ -700,7 +700,7 @@ pub fn property() -> Property {
             "the known-finding exclusion F1 is active only while KNOWN_FINDINGS.txt lists id=C17-F1 as known".into(),
         ],
         parts: vec![
-            Part { name: "random", run: run_random, quick: Budget::Random { cases: 200_000, bytes: 24 }, thorough: Budget::Random { cases: 4_000_000, bytes: 24 }, min_nontrivial_pct: 30 },
+            Part { name: "random", run: run_random, quick: Budget::Random { cases: 3_000_000, bytes: 24 }, thorough: Budget::Random { cases: 15_000_000, bytes: 24 }, min_nontrivial_pct: 30 },
             Part { name: "exh-3h", run: run_exh, quick: Budget::Exhaustive { param: 36 }, thorough: Budget::Exhaustive { param: 37 }, min_nontrivial_pct: 0 },
             Part { name: "exh-4h", run: run_exh, quick: Budget::Exhaustive { param: 45 }, thorough: Budget::Exhaustive { param: 46 }, min_nontrivial_pct: 0 },
             Part { name: "exh-5h", run: run_exh, quick: Budget::Skip, thorough: Budget::Exhaustive { param: 55 }, min_nontrivial_pct: 0 },
